@@ -35,7 +35,7 @@ INFO = {
          "'state unchanged after a refused call' is by construction in a functional model; it is decided on the implementation by the bracketed observations", "5/C13"),
  "C14": ("purity theorems at store level (paginated reads_pure / foreach / compact / key_at_rank preserve abs, loop-level observers; dense and collapsing observers; dataset queries; Props/Refine.v reads_pure, quantile_pure, copy) + correspondence on interleavings of reads and copies",
          "independence of copies (aliasing) cannot be exhibited by a functional model: twins on the implementation only", "5/C14"),
- "C15": ("clear-like-new theorems (dense, collapsing, paginated, sparse; sketch level Props/Sketch.v C15_*; Props/Refine.v) + correspondence with fresh twins over before/after history pairs, incl. decode targets and collapsing stores", "", "5/C15"),
+ "C15": ("clear-like-new theorems (dense, collapsing, paginated, sparse stores; executed sketch Props/Refine.v Rf_*clear*) + correspondence with fresh twins over before/after history pairs, incl. decode targets and collapsing stores", "", "5/C15"),
  "C16": ("reweight algebra on Layer A (Props/Sketch.v C16_*) and store refinements (dense, collapsing, paginated reweight = bscale; Props/Refine.v); twin oracle reweight vs scaled adds", "", "5/C16"),
  "C17": ("ideal-arithmetic model of changeStoreMapping with conservation / sign / support theorems (Props/ChangeMapping.v) + exact-rational oracle on the implementation (weight drift, negative bins, overlap, identity, combined quantile accuracy, statistics)",
          "partial: combined quantile accuracy is validated only", "5/C17"),
